@@ -715,7 +715,10 @@ impl Scenario for PoolScenario {
         }
         cx.probe_n("blocks_recovered_by_drain", recovered as u64);
         // lost blocks: only for pools whose free structure is global and is searched before fresh memory is carved
-        if !cx.failed() && frees_err == 0 && matches!(kind, Kind::LockFree | Kind::FiveLockFree | Kind::FiveMutex) && one_class {
+        // (SecureMemoryPool without per-thread caches: every freed chunk is on the shared stack, which is
+        // searched before a new chunk is made)
+        let secure_no_cache = kind == Kind::Secure && desc.contains("local_cache_size=0 ");
+        if !cx.failed() && frees_err == 0 && ((matches!(kind, Kind::LockFree | Kind::FiveLockFree | Kind::FiveMutex) && one_class) || secure_no_cache) {
             let freed_now = ledger.lock().unwrap().freed.len();
             // requests above the five-level pools' max_fast_block_size (256) take the "huge" path
             let huge = matches!(kind, Kind::FiveLockFree | Kind::FiveMutex) && (size_fixed + 7) / 8 * 8 > 256;
